@@ -48,6 +48,7 @@ RULE = ('layouts: every non-empty subset of the 7 positions (centre may be '
         'case is non-trivial when at least two assemblies share a face '
         'whose two sides have different meshes; distinct by (positions, '
         'layout mask, pool kind).')
+RULE += (' Round 11: the gap model (flow / no_flow / duct_average) is drawn per case; geometry and flow split contracts are the same for all.')
 DECIDING = ['asm_adj_is_lattice_neighbourhood', 'count_once_partition',
             'cell_borders_1_to_3', 'sc_adj_symmetric',
             'perimeter_covered_once', 'shared_cell_seen_identically',
@@ -186,6 +187,11 @@ def base(case, rng):
     P = gen.base_problem(length=float(wl.choose(rng, [0.1, 0.3])),
                          asm_pitch=ftf_o + d_gap, gap_model='flow',
                          bypass_fraction=wl.loguniform(rng, 0.002, 0.2))
+    # the gap geometry and the flow split are the same for every gap model
+    # (own generator: the streams of the cases above stay as they were)
+    P['gap_model'] = str(wl.choose(
+        np.random.default_rng(case['seed'] + [909]),
+        ['flow', 'flow', 'no_flow', 'duct_average']))
     kind, pool = make_pool(rng, ftf_o, case['max_rings'])
     P['types'] = pool
     # axial regions on one pin-bundle type now and then (stays "rodded")
@@ -629,6 +635,7 @@ def run_case(case):
             if c['type'] == 1:
                 res.tag('corner_k=%d' % c['k'])
         res.tag('n_types=%d' % key['n_types'])
+        res.tag('gap_model=%s' % S.get('model'))
         res.tag('positions=%d' % npos)
         if key['centre_empty']:
             res.tag('centre_empty')
